@@ -392,3 +392,12 @@ func (c *Ctx) allModuleFuncs() []*ssa.Function {
 	}
 	return out
 }
+
+// inModule: fn belongs to a package of the analysed module (not a dependency, not an upstream reference copy).
+func (c *Ctx) inModule(fn *ssa.Function) bool {
+	if fn == nil || fn.Pkg == nil {
+		return false
+	}
+	p := fn.Pkg.Pkg.Path()
+	return (p == modPath || strings.HasPrefix(p, modPath+"/")) && !strings.Contains(p, "zz_ref_")
+}
